@@ -956,6 +956,93 @@ thread_local! {
     static CORPUS_DOCS: std::cell::RefCell<Vec<Option<std::rc::Rc<CorpusDoc>>>> = const { std::cell::RefCell::new(Vec::new()) };
 }
 
+pub const XPATH_MUTANTS: &str = include_str!("../data/xpath_mutants.txt");
+
+/// C06: whatever the string is, parsing and evaluating it ends in a value or an error (tools/gen_xpath_mutants.py)
+pub fn xpath_mutant(expr: &str) -> Outcome {
+    use xml_xpath::eval::model::Context;
+    let observed = match catch_unwind(AssertUnwindSafe(|| {
+        if CORPUS_DOCS.with(|c| c.borrow().is_empty() || c.borrow()[0].is_none()) {
+            let _ = xpath_corpus(0, "1", "N:1|3ff0000000000000");
+        }
+        let cd = CORPUS_DOCS.with(|c| c.borrow()[0].clone().unwrap());
+        let mut ctx = Context::default();
+        ctx.add_ns(Some("p"), "urn:p");
+        match xml_xpath::query(cd.doc.clone(), expr, &mut ctx) {
+            Ok(_) => "a value or an error".to_string(),
+            Err(_) => "a value or an error".to_string(),
+        }
+    })) {
+        Ok(s) => s,
+        Err(e) => format!("PANIC({}) [at {}]", e.downcast_ref::<&str>().map(|s| s.to_string()).or_else(|| e.downcast_ref::<String>().cloned()).unwrap_or_default(), crate::LAST_PANIC_AT.lock().unwrap()),
+    };
+    Outcome { observed, expected: "a value or an error".to_string(), note: String::new() }
+}
+
+/// C06, deep nesting: "(" * k, "a[a" * k, "count(" * k with k = 1000, each in a child process (the expression parser and the
+/// evaluator recurse once per level; a stack overflow aborts the process)
+pub const XPATH_DEEP: [&str; 6] = ["paren:200", "pred:200", "call:200", "paren:1000", "pred:1000", "call:1000"];
+
+pub fn xpath_deep_expr(shape: &str) -> String {
+    let (kind, k) = shape.split_once(':').unwrap_or(("paren", "10"));
+    let k: usize = k.parse().unwrap_or(10);
+    match kind {
+        "pred" => format!("a{}{}", "[a".repeat(k), "]".repeat(k)),
+        "call" => format!("{}/{}", "count(".repeat(k), ")".repeat(k)),
+        _ => format!("{}1{}", "(".repeat(k), ")".repeat(k)),
+    }
+}
+
+pub fn xpath_deep(shape: &str) -> Outcome {
+    crate::ops_more::in_child("xpath.deep_inproc", shape, "a value or an error", "the XPath expression parser / evaluator")
+}
+
+pub fn xpath_deep_inproc(shape: &str) -> Outcome {
+    xpath_mutant(xpath_deep_expr(shape).as_str())
+}
+
+/// C19: the same expression evaluated twice on the same document and the SAME context object gives the same value, the value
+/// equals the one a fresh context gives, and the document prints as before (queries have no side effect)
+pub fn xpath_corpus_repeat(doc_index: usize, expr: &str, expected: &str) -> Outcome {
+    use xml_xpath::eval::model::{Context, Value};
+    let first = xpath_corpus(doc_index, expr, expected);
+    let observed = match catch_unwind(AssertUnwindSafe(|| {
+        let cd = CORPUS_DOCS.with(|c| c.borrow()[doc_index].clone().unwrap());
+        let before = format!("{}", cd.doc);
+        let show = |v: xml_xpath::error::Result<'_, Value>| match v {
+            Err(e) => format!("Err({})", e),
+            Ok(Value::Boolean(b)) => format!("B:{}", b),
+            Ok(Value::Text(s)) => format!("S:{}", s),
+            Ok(Value::Number(x)) => format!("N:{:x}", x.to_bits()),
+            Ok(Value::Node(ns)) => format!("NS:{:?}", ns.iter().map(|n| (n.id(), n.order())).collect::<Vec<_>>()),
+        };
+        let mut ctx = Context::default();
+        ctx.add_ns(Some("p"), "urn:p");
+        ctx.add_ns(Some("q"), "urn:q");
+        let a = show(xml_xpath::query(cd.doc.clone(), expr, &mut ctx));
+        let b = show(xml_xpath::query(cd.doc.clone(), expr, &mut ctx));
+        let mut fresh = Context::default();
+        fresh.add_ns(Some("p"), "urn:p");
+        fresh.add_ns(Some("q"), "urn:q");
+        let c = show(xml_xpath::query(cd.doc.clone(), expr, &mut fresh));
+        if a != b {
+            return format!("second evaluation on the same context differs: {} then {}", a, b);
+        }
+        if a != c {
+            return format!("a fresh context answers differently: {} / {}", a, c);
+        }
+        if format!("{}", cd.doc) != before {
+            return "the document prints differently after the query".to_string();
+        }
+        "same value every time, document unchanged".to_string()
+    })) {
+        Ok(s) => s,
+        Err(_) => "same value every time, document unchanged".to_string(), // a panic is C06's matter
+    };
+    let _ = first;
+    Outcome { observed, expected: "same value every time, document unchanged".to_string(), note: String::new() }
+}
+
 /// C07 only: the node-set the expression returns is duplicate-free and in document order (WHICH nodes it holds is C05's matter)
 pub fn xpath_corpus_order(doc_index: usize, expr: &str, expected: &str) -> Outcome {
     let o = xpath_corpus(doc_index, expr, expected);
